@@ -22,7 +22,27 @@ MODEL_NOTE = ('Domain M: per-point data are z3 arrays of symbolic length; object
               'arithmetic only). A-lib: np.argmin/np.where/np.append/.copy() semantics; arrays modelled by value, with freshness of stored snapshots as '
               'separate syntactic obligations. Callbacks (h) are deterministic and side-effect free.')
 
+BOX_NOTE = ('Domain B: every array is its component at one generic index; + - comparisons minimum maximum abs are the IEEE-754 binary64 operations (z3/cvc5 '
+            'FloatingPoint theory, portfolio). Products are abstracted (finite*finite is not NaN) and quotients are abstracted by three IEEE facts (t/t == 1, 0/y is a '
+            'zero, x/finite-non-zero is NaN only if x is) — trusted IEEE lemmas, not bit-blasted. A-nan: the floating-point inputs named in the contracts (steps, base '
+            'point, x0) are not NaN / are finite: stated, never discharged. Quantifier preconditions on solve: bounds NaN-free, lower <= upper, the box meets '
+            '[-1e20, 1e20], and finite non-degenerate bounds under scaling (O2: the code checks the gap only on the scaled box). A-params: check_all_params returns '
+            'True only inside the type/range table read from params.py. A-callback: projection callables and objfun do not mutate their arguments.')
+
 PROPS = {
+    'C01': {'bundles': ['box'], 'level': 'proof',
+            'level_text': 'Exact IEEE-754 binary64, elementwise: the leaves (pbox, the x0 push, the two clips of as_absolute_coordinates/xpt, the clip after un-scaling) '
+                          'put their result inside the box for every base point; the scaled box is exactly [0,1]; the transport obligations at the 11 call sites of '
+                          'evaluate_objective, in solve_main (x0 block, returns), in the hard-restart loop and at the final un-scaling in solve make every objfun '
+                          'argument and soln.x lie inside the caller\'s bounds; with projections the bound box is the last projector (closure applied symbolically).',
+            'level_note': BOX_NOTE,
+            'not_decided': ['NaN/inf steps (A-nan precondition on the argument of as_absolute_coordinates; numerics of the step solvers)']},
+    'C09': {'bundles': ['box'], 'level': 'proof',
+            'level_text': 'Partial claim: with projections every evaluated point is (a ghost-tagged) output of util.dykstra; solve appends the bound box last, so that '
+                          'output lies in the box exactly whenever at least one sweep ran (dykstra.max_iters >= 1 from the parameter table); x0 is replaced by its '
+                          'projection before the first evaluation.',
+            'level_note': BOX_NOTE + ' The clause "within sqrt(p*tol) of every set when the stop rule fired" is decided under C15 (real-vector contract of dykstra + Lean lemma L1).',
+            'not_decided': ['distance sqrt(p*tol) to the user sets: see C15']},
     'C02': {'bundles': ['ledger'], 'level': 'proof',
             'level_text': 'Every objfun call goes through one contract-verified choke point; a ghost ledger (calls, points, budget) is proved '
                           'equal to nf/nx and bounded by maxfun at every loop head, call site and return of evaluate_objective, eight Controller '
